@@ -1041,3 +1041,42 @@ pub fn iter_oracle(res: &RoundResult, cfg: &RoundCfg) -> Result<IterStats, Strin
     }
     Ok(st)
 }
+
+
+/// Hand-made event logs for the resize monitor; returns the list of self-test failures.
+pub fn selftest_resize_monitor() -> Vec<String> {
+    let mut fails = Vec::new();
+    let ev = |ticket: u64, thread: u16, site: u32, a: usize, b: usize| EventRec { ticket, thread, site, a, b };
+    let good = |n: usize| -> Vec<EventRec> {
+        let mut v = vec![ev(1, 0, fvf::EV_RESIZE_BEGIN, 0x1000, n), ev(2, 0, fvf::EV_RESIZE_INITIATED, 0x1000, n), ev(3, 1, fvf::EV_HELPER_JOINED, 0x1000, n)];
+        for i in 0..n {
+            v.push(ev(10 + i as u64, (i % 2) as u16, fvf::EV_BIN_FORWARDED, 0x1000, i));
+        }
+        v.push(ev(1000, 0, fvf::EV_TABLE_PUBLISHED, 0x1000, 0x2000));
+        v
+    };
+    let check = |name: &str, evs: Vec<EventRec>, final_len: usize, want_ok: bool, fails: &mut Vec<String>| {
+        let r = resize_monitor(&evs, final_len);
+        if r.is_ok() != want_ok {
+            fails.push(format!("resize monitor selftest {name}: expected ok={want_ok}, got {:?}", r.map(|s| s.generations)));
+        }
+    };
+    check("good", good(8), 16, true, &mut fails);
+    let mut twice = good(8);
+    twice.push(ev(500, 1, fvf::EV_BIN_FORWARDED, 0x1000, 3));
+    check("bin-forwarded-twice", twice, 16, false, &mut fails);
+    let mut missing = good(8);
+    missing.retain(|e| !(e.site == fvf::EV_BIN_FORWARDED && e.b == 5));
+    check("bin-never-forwarded", missing, 16, false, &mut fails);
+    let mut two_pubs = good(8);
+    two_pubs.push(ev(1001, 1, fvf::EV_TABLE_PUBLISHED, 0x1000, 0x3000));
+    check("published-twice", two_pubs, 16, false, &mut fails);
+    let mut overlap = good(8);
+    overlap.insert(5, ev(6, 2, fvf::EV_RESIZE_BEGIN, 0x2000, 16));
+    check("generations-overlap", overlap, 16, false, &mut fails);
+    check("wrong-final-length", good(8), 64, false, &mut fails);
+    let mut not_double = good(8);
+    not_double.push(ev(2000, 0, fvf::EV_RESIZE_BEGIN, 0x2000, 32));
+    check("successor-not-doubled", not_double, 64, false, &mut fails);
+    fails
+}
